@@ -303,6 +303,20 @@ def lookups(conv, model, cell, hist, st):
                         if rv != 1:
                             out.append((tag, f"{where} = {r!r}, expected "
                                         "rate 1"))
+                            continue
+                        # the reported rate is a rate like any other: it
+                        # can be inverted (C09), the inverse is rate 1 too
+                        try:
+                            inv = r.inverted()
+                            ok = O.fr(inv.rate) == 1 and \
+                                inv.unit_currency is u and \
+                                inv.term_currency is u and \
+                                O.fr(r.rate) * O.fr(r.inverse_rate) == 1
+                        except Exception as exc:
+                            inv, ok = exc, False
+                        if not ok:
+                            out.append((tag + ':inverted', f"{where} = "
+                                        f"{r!r}; inverted(): {inv!r}"))
                         continue
                     if exp[0] == 'base':
                         true = exp[1]
